@@ -95,3 +95,115 @@ class FunctionContract:
         self.notes = notes
         self.kwargs_params = kwargs_params
         self.assume = assume or {}
+
+
+# ----------------------------------------------------------------------------- structural helpers
+# Natively these use dataclasses.fields of the REAL class and the field annotations (independent of
+# any traversal code); symbolically the engine gives them the same meaning (pyvc.structural).
+
+def child_fields(cls):
+    import dataclasses
+    from .loader import child_fields as cf
+    if not dataclasses.is_dataclass(cls):
+        return {"items": "many"} if issubclass(cls, (list, tuple)) else {}
+    return cf(cls)
+
+
+def children(expr):
+    """All children of a node in field order (annotation-derived): list."""
+    if isinstance(expr, (list, tuple)):
+        return list(expr)
+    out = []
+    for name, how in child_fields(type(expr)).items():
+        v = getattr(expr, name)
+        if how == "one":
+            out.append(v)
+        elif how == "many":
+            out.extend(v)
+        else:
+            out.extend(v.values())
+    return out
+
+
+def map_children(expr, f):
+    """A new node of the same class whose child-bearing fields are mapped through f and whose other
+    fields are those of expr."""
+    import dataclasses
+    if isinstance(expr, list):
+        return [f(c) for c in expr]
+    if isinstance(expr, tuple):
+        return tuple([f(c) for c in expr])
+    cf = child_fields(type(expr))
+    vals = {}
+    for fld in dataclasses.fields(expr):
+        v = getattr(expr, fld.name)
+        how = cf.get(fld.name)
+        if how == "one":
+            v = f(v)
+        elif how == "many":
+            v = tuple([None if c is None else f(c) for c in v])
+        elif how == "mapvals":
+            from immutabledict import immutabledict
+            v = immutabledict({k: f(c) for k, c in v.items()})
+        vals[fld.name] = v
+    return type(expr)(**vals)
+
+
+def fields_identical(a, b):
+    """Same class and every field the identical object (tuples/mappings elementwise)."""
+    import dataclasses
+    if type(a) is not type(b):
+        return False
+    if isinstance(a, (list, tuple)):
+        return len(a) == len(b) and all(x is y for x, y in zip(a, b))
+    for fld in dataclasses.fields(a):
+        x, y = getattr(a, fld.name), getattr(b, fld.name)
+        if isinstance(x, tuple) and isinstance(y, tuple):
+            if len(x) != len(y) or any(p is not q for p, q in zip(x, y)):
+                return False
+        elif hasattr(x, "items") and hasattr(y, "items"):
+            if list(x.keys()) != list(y.keys()) or any(x[k] is not y[k] for k in x):
+                return False
+        elif x is not y and x != y:
+            return False
+        elif x is not y and isinstance(x, (tuple,)):
+            return False
+    return True
+
+
+def same_elements(a, b):
+    """Two finite sequences have the same elements with the same multiplicities (by identity)."""
+    a, b = list(a), list(b)
+    if len(a) != len(b):
+        return False
+    rest = list(b)
+    for x in a:
+        for i, y in enumerate(rest):
+            if x is y or (type(x) is type(y) and x == y):
+                del rest[i]
+                break
+        else:
+            return False
+    return True
+
+
+def is_fresh(obj):
+    """Ghost predicate: obj was allocated during the call (natively unknown: True)."""
+    return True
+
+
+# ----------------------------------------------------------------------------- ghost event log
+LOG = []
+
+
+def emit(name, *vals):
+    """Append a ghost event (natively to LOG; symbolically to the path's effect log)."""
+    LOG.append((name, *vals))
+    return None
+
+
+def for_each(seq, f):
+    """Apply an effectful f to every element of seq."""
+    for c in seq:
+        f(c)
+    return None
